@@ -279,11 +279,18 @@ func run05(c drv.Case, res *drv.Result) {
 			}
 			stage := "faulted update reporting success"
 			if uerr != nil {
-				// the failure was reported: the directory is no longer "a local copy of one bundle", the property says
-				// nothing about it (a second Update may legitimately refuse to run on it)
+				// the failure was reported: the directory is no longer "a local copy of one bundle", and a second Update
+				// may legitimately refuse to run on it. But a second, fault-free Update that REPORTS SUCCESS claims the
+				// directory is at the target: then it must equal the fresh download.
 				res.Stat("updates_reporting_the_fault", 1)
-				os.RemoveAll(dirF)
-				continue
+				rerr := core.Update(ctx, env.ReadBundle(nil, "repo", idB, nil, p.DownConc), core.NewBundle(core.ConsumableStore(coreh.LocalFS(dirF)), core.Logger(coreh.Nop)))
+				if rerr != nil {
+					res.Stat("retries_after_a_failed_update_refused", 1)
+					os.RemoveAll(dirF)
+					continue
+				}
+				res.Stat("retries_after_a_failed_update_reporting_success", 1)
+				stage = "fault-free retry reporting success after a failed update"
 			}
 			gotF, err := coreh.ReadDir(dirF)
 			os.RemoveAll(dirF)
